@@ -416,6 +416,23 @@ C18_SameAsDirect(o) ==
         /\ Len(Prompts(o)) = Len(SelectSeq(PrevCer(o).evs, LAMBDA e : e.ev = "Prompt"))
 
 -----------------------------------------------------------------------------
+(* C17 - U2F registration / authentication (ceremony part)                   *)
+IsU2f(o) == o.b.api = "u2f"
+C17_Registration(o) ==
+    (IsU2f(o) /\ o.b.op = "reg" /\ EndOk(o) /\ Finished(o)) =>
+        LET d == EndD(o) IN
+        /\ d.sigkey = Req(o).handle             \* the signature verifies under the returned key over 0x00||app||chal||handle||key
+        /\ d.cred = Req(o).handle
+        /\ d.keymatch                           \* the stored private key belongs to the returned public key
+        /\ Has(o.snap, Req(o).handle) /\ Get(o.snap, Req(o).handle).rp = Req(o).rp
+C17_Authentication(o) ==
+    (IsU2f(o) /\ o.b.op = "auth" /\ Ends(o) # <<>>) =>
+        LET known == Has(o.snap0, Req(o).handle) /\ Get(o.snap0, Req(o).handle).rp = Req(o).rp IN
+        /\ (~known => ~EndOk(o))                 \* an unknown key handle fails
+        /\ (EndOk(o) => /\ EndD(o).sigkey = Req(o).handle    \* verifies under the key registered for that handle
+                         /\ EndD(o).ctr = Req(o).counter /\ EndD(o).flags = Req(o).presence)
+
+-----------------------------------------------------------------------------
 \* the names of the invariants that are false in o
 Violated(o) ==
     IF ~o.b.api \in {"ctap2", "trait", "client", "u2f"} THEN {}
@@ -448,6 +465,8 @@ Violated(o) ==
     \cup (IF ~C03_Assertion(o) THEN {"C03.Assertion"} ELSE {})
     \cup (IF ~C03_NoEligibleCredential(o) THEN {"C03.NoEligibleCredential"} ELSE {})
     \cup (IF ~C09_Results(o) THEN {"C09.Results"} ELSE {})
+    \cup (IF ~C17_Registration(o) THEN {"C17.Registration"} ELSE {})
+    \cup (IF ~C17_Authentication(o) THEN {"C17.Authentication"} ELSE {})
     \cup (IF ~C18_SameAsDirect(o) THEN {"C18.SameAsDirect"} ELSE {})
     \cup (IF ~C01_RejectedNeverReaches(o) THEN {"C01.RejectedNeverReaches"} ELSE {})
     \cup (IF ~C01_EffectiveRpUsed(o) THEN {"C01.EffectiveRpUsed"} ELSE {})
